@@ -68,8 +68,14 @@ pub fn generate(id: &str, run_seed: u64, _thorough: bool) -> Plan {
             }
         }
         "C02" => {
-            if pick < 45 {
+            if pick < 37 {
                 f_lease(run_seed, &LeaseOpts { modacks: pick < 25, limits: false })
+            } else if pick < 42 {
+                // acknowledgements inside StreamingPull control messages (mixed frames)
+                f_lease_stream(run_seed)
+            } else if pick < 45 {
+                // an acknowledgement that arrives the instant a lease runs out
+                f_edge(run_seed)
             } else if pick < 53 {
                 // acknowledgements naming more than 1000 deliveries at once
                 f_limits(run_seed, false)
@@ -80,8 +86,13 @@ pub fn generate(id: &str, run_seed: u64, _thorough: bool) -> Plan {
             }
         }
         "C03" => {
-            if pick < 40 {
+            if pick < 36 {
                 f_consumers(run_seed, true)
+            } else if pick < 42 {
+                f_lease_stream(run_seed)
+            } else if pick < 45 {
+                // a slow StreamingPull client next to waiting consumers
+                f_stalled(run_seed)
             } else if pick < 90 {
                 f_general(run_seed, &GeneralOpts { deletes: false, push: pick >= 75, ..full })
             } else {
@@ -91,20 +102,31 @@ pub fn generate(id: &str, run_seed: u64, _thorough: bool) -> Plan {
         "C04" => {
             if pick < 30 {
                 f_lease_parked(run_seed)
+            } else if pick < 36 {
+                // requests arriving the instant a lease runs out, with a consumer waiting
+                f_edge(run_seed)
             } else {
                 f_lease(run_seed, &LeaseOpts { modacks: false, limits: pick < 50 })
             }
         }
         "C05" => {
-            if pick < 20 {
+            if pick < 22 {
                 f_lease_stream(run_seed)
+            } else if pick < 26 {
+                f_edge(run_seed)
             } else {
                 f_lease(run_seed, &LeaseOpts { modacks: true, limits: false })
             }
         }
         "C06" => {
-            if pick < 85 {
-                f_consumers(run_seed, pick < 45)
+            if pick < 65 {
+                f_consumers(run_seed, pick < 35)
+            } else if pick < 77 {
+                // a slow StreamingPull client (full response window) next to waiting consumers
+                f_stalled(run_seed)
+            } else if pick < 88 {
+                // a request that is handled in the same actor wake-up as a lease expiry
+                f_edge(run_seed)
             } else {
                 f_consumers_saturated(run_seed)
             }
